@@ -3752,6 +3752,9 @@ mod verif_seam {
                 .request_id_generator
                 .load(std::sync::atomic::Ordering::Relaxed)
         }
+        fn submit_capacity(&self) -> usize {
+            self.handle.submit_channel.max_capacity()
+        }
         fn prefilled(&self, i: usize) -> Option<(i16, pubapi::RxPoll)> {
             let mut g = self.prefilled.borrow_mut();
             let p = g.as_mut()?;
